@@ -447,7 +447,7 @@ def step (st : St) (line : String) : St × String :=
       let fb (b : Bool) : String := if b then "true" else "false"
       let parts := [
         s!"exists={boolStr (c.exists_ key)}",
-        s!"get={match c.get key with | some v => encB v | none => "-"}",
+        s!"get={match c.get key with | some v => encB v | none => "%!"}",
         s!"string={fmtAcc encB (c.string key)}",
         s!"mustString={encB (c.mustString key (decB ds))}",
         s!"int={fmtAcc toString (c.int key)}",
